@@ -358,6 +358,25 @@ def _header_layout(ctx: Ctx, model, mod, avp):
 
 
 def _padding(ctx: Ctx, model, mod, pk, avp):
+    # the 24-bit length field is bounded before it is or-ed with the flag octet
+    ap_ = avp.methods.get("as_packed")
+    cons = "Avp.as_packed:length-fits-24-bits"
+    ctx.inst(cons, rule="C01-R3")
+    if ap_ is not None:
+        gap = cfg_of(ap_)
+        atp_ = Atomizer(model, mod, avp)
+        lw = [n for n in gap.nodes if n.kind == "stmt" and any(
+            isinstance(c.func, ast.Attribute) and c.func.attr == "pack_uint" and c.args
+            and "self.length" in ast.unparse(c.args[0]) for c in n.calls())]
+        for n in lw:
+            fx = must_facts(gap, atp_, n)
+            okl = any(f_[0] == "self.length" and f_[1] == ">" and f_[3] is False
+                      and str(f_[2]) in ("16777215", "0xffffff") for f_ in fx)
+            if not okl:
+                ctx.fail(cons, gap.loc(n), "the AVP length is or-ed into the flags/length word without "
+                         "having been checked to fit 24 bits: for 2**24-8 or more data bytes the "
+                         "length field wraps and the excess changes the flag octet (nothing is "
+                         "rejected)", rule="C01-R3")
     ctx.rule("C01-R4", "padding expressions are round-up-to-4; pad byte is zero", floor=3)
 
     def tmpl(e):
@@ -622,9 +641,17 @@ def _dictionary(ctx: Ctx, model, mod, avp):
         facts = must_facts(gr, atr, s)
         tv = ast.unparse(t.value)
         key = ast.unparse(t.slice)
-        if tv == "AVP_DICTIONARY" and key == rp[0] and ("vendor", "is", None, True) in facts:
+        if tv == "AVP_DICTIONARY" and key == rp[0] and ("vendor", "truthy", None, False) in facts:
             base_ok = True
-        elif key == rp[0] and ("vendor", "is", None, False) in facts:
+        elif tv == "AVP_DICTIONARY" and key == rp[0] and ("vendor", "is", None, True) in facts:
+            base_ok = True
+            ctx.fail(cons + "#vendor-zero", gr.loc(s), "register() files a definition in the base "
+                     "dictionary only for `vendor is None`; vendor=0 (the value that means 'no "
+                     "vendor' in Avp.new, from_unpacker and get_avp_dictionary_entry) goes to "
+                     "AVP_VENDOR_DICTIONARY[0], which the lookup never consults: the registered "
+                     "type is ignored by the codec")
+        elif key == rp[0] and (("vendor", "is", None, False) in facts
+                               or ("vendor", "truthy", None, True) in facts):
             # the dict stored into must be the one inside AVP_VENDOR_DICTIONARY
             src = t.value
             if isinstance(src, ast.Name):
